@@ -202,4 +202,67 @@ consolidating reap) are satisfiable -/
 example : OpsOK' exA9 {} exOK9 := opsOKB_sound exA9 exLaws9 _ _ catInv_empty fsInv_empty (by decide)
 
 
+/-! ### overlapping sinks: the one-sink-at-a-time condition is needed (`catalog_inv` is the `_partial`) -/
+
+def overlapOps : List (COp Nat) :=
+  [.create 1 5 50 1, .create 2 9 90 1, .wfull 2 7 [] .ok, .close 2, .winc 1 [3], .close 1]
+
+theorem dir5 : (runOps exA9 {} overlapOps).fs.dir 5 = some { tmp := false, mt := some ⟨5, 50, 1⟩, wals := [3] } := by rfl
+theorem dir9 : (runOps exA9 {} overlapOps).fs.dir 9 = some { tmp := false, mt := some ⟨9, 90, 1⟩, db := some 7, crc := some 7, wals := [] } := by rfl
+theorem dirOther (n : Nat) (h5 : n ≠ 5) (h9 : n ≠ 9) : (runOps exA9 {} overlapOps).fs.dir n = none := by
+  simp [overlapOps, runOps, stepOp, create, writeFull, writeInc, close, getSink, putSink, finalDir, FS.set, fullDue,
+    snapshotCount, liveDirs, addName, clearedBy, h5, h9]
+
+/-- the catalog clause of the property without the one-sink-at-a-time condition: every listed
+incremental has a listed full snapshot at or before it -/
+def Based (s : CS Nat) : Prop :=
+  ∀ n d, Live s.fs n d → d.db = none → ∃ n' d', Live s.fs n' d' ∧ d'.db.isSome ∧ keyLe (keyOf n' d') (keyOf n d)
+
+/-- side conditions with overlapping sinks allowed: as `OpOK'`, but a sink may be created while
+another one is open (fresh name still required) -/
+def OpOKo (s : CS Nat) : COp Nat → Prop
+  | .create _ name _ _ => s.fs.dir name = none ∧ name ∉ s.fs.names
+  | op => OpOK' s op
+
+def OpsOKo (A : DbAlg Nat) : CS Nat → List (COp Nat) → Prop
+  | _, [] => True
+  | s, o :: os => OpOKo s o ∧ OpsOKo A (stepOp A s o).1 os
+
+def C09_full : Prop := ∀ ops : List (COp Nat), OpsOKo exA9 {} ops → Based (runOps exA9 {} ops)
+
+/-- Overlapping sinks, which hashicorp/raft permits (installSnapshot is not serialized with a local
+snapshot's Persist): a local sink is created at (term 1, index 50); a snapshot from the leader at
+index 90 is created, written and installed into the EMPTY store; the local sink then gets an
+incremental header — accepted, the store is no longer empty and no full snapshot is due — and is
+closed: the catalog lists an incremental at index 50 below the only full snapshot (index 90),
+which does not resolve. The store never does this (it takes an incremental only when a full
+snapshot at a lower index is already installed: C04); the sink API alone does not prevent it. -/
+theorem overlapping_sinks_witness : OpsOKo exA9 {} overlapOps ∧ ¬ Based (runOps exA9 {} overlapOps) := by
+  constructor
+  · refine ⟨⟨rfl, by simp⟩, ⟨?_, ?_⟩, ?_, trivial, ?_, trivial, trivial⟩
+    · rfl
+    · simp [stepOp, create, putSink, addName, FS.set]
+    · exact List.nodup_nil
+    · exact ⟨by simp, by simp⟩
+  · intro hb
+    obtain ⟨n', d', hl, hfull, hle⟩ := hb 5 _ ⟨dir5, rfl⟩ rfl
+    by_cases h5 : n' = 5
+    · subst h5
+      have := hl.1
+      rw [dir5] at this
+      cases this
+      cases hfull
+    · by_cases h9 : n' = 9
+      · subst h9
+        have := hl.1
+        rw [dir9] at this
+        cases this
+        simp [keyOf, keyLe] at hle
+      · have := hl.1
+        rw [dirOther n' h5 h9] at this
+        cases this
+
+theorem C09_full_fails : ¬ C09_full := fun h => overlapping_sinks_witness.2 (h _ overlapping_sinks_witness.1)
+
+
 end C09
